@@ -800,9 +800,6 @@ def run_scripts(pid, P, scripts, tier, seed, search=True, stats=None):
     return {"violations": violations, "known": known_hits, "coverage": cov}
 
 
-import crashprops  # noqa: E402,F401  (registers C03 C05 C10 C09)
-
-
 def run_property(pid, P, tier, seed):
     rng = core.Rng(seed * 1000003 + int(pid[1:]))
     scripts, stats = P["gen"](tier, rng)
@@ -1325,3 +1322,6 @@ PROPS.update({
     "C02": dict(theorems=[], gen=scripts_c02, project=proj_c02, oracle=oracle_c02,
                 explanation="clean restart equivalence", assumptions=OS_ASSUMPTIONS),
 })
+
+
+import crashprops  # noqa: E402,F401  (registers C03 C05 C10 C09, extends C07)
